@@ -55,6 +55,10 @@ MUTANTS = [
      "new": "    group_positions = np.zeros(ngroups, dtype=np.int64)\n    group_non_null = np.zeros(ngroups, dtype=np.int64)\n    group_n_seen = np.zeros(ngroups, dtype=np.int64)", "kill": [], "silent": ["C09"]},
     {"name": "E4 np.full(n, 0) instead of np.zeros in _find_nth", "file": NB, "old": "    out = np.full(ngroups, -1, dtype=np.int64)\n    seen = np.zeros(ngroups, dtype=np.int64)\n    masked = mask is not None\n    if n >= 0:", "new": "    out = np.full(ngroups, -1, dtype=np.int64)\n    seen = np.full(ngroups, 0, dtype=np.int64)\n    masked = mask is not None\n    if n >= 0:", "kill": [], "silent": ["C15"]},
     {"name": "E5 up to 8 threads per call", "file": CORE, "old": "        return min(4, 1 + len(self) // 1_000_000)", "new": "        return min(8, 1 + len(self) // 1_000_000)", "kill": [], "silent": ["C13", "C07"], "note": "C03's t_max probe reports inconclusive (exploration covers 1..4 threads)"},
+    # --- reverted fixes whose commits no longer revert mechanically (later commits touch the same lines)
+    {"name": "R-807b829 grouped EMA without the null-key guard", "file": EMAS, "old": "        if k < 0:\n            # rows with a null key belong to no group\n            out[i] = np.nan\n            continue\n        if np.isnan(x) or (masked and not mask[i]):\n            out[i] = last_seen[k]\n        else:\n            out[i] = (x + residuals[k]) / (1 + residual_weights[k])\n            residual_weights[k] += 1\n            residuals[k] += x\n\n        residuals[k] *= beta",
+     "new": "        if np.isnan(x) or (masked and not mask[i]):\n            out[i] = last_seen[k]\n        else:\n            out[i] = (x + residuals[k]) / (1 + residual_weights[k])\n            residual_weights[k] += 1\n            residuals[k] += x\n\n        residuals[k] *= beta", "kill": ["C10", "C06"], "silent": []},
+    {"name": "R-3f9d6bd chunk merge ignores the chunk's own counts", "file": CORE, "old": "                    y_counts=chunk_count,  # groups absent from this chunk contribute nothing\n", "new": "", "kill": ["C03"], "silent": []},
     # --- further blind-spot mutants
     {"name": "B1 8-bit buffer positions in rolling sum", "file": NB, "old": "    group_positions = np.zeros(ngroups, dtype=np.int16)\n    group_non_null = np.zeros(ngroups, dtype=np.int16)\n    group_n_seen = np.zeros(ngroups, dtype=np.int16)", "new": "    group_positions = np.zeros(ngroups, dtype=np.int8)\n    group_non_null = np.zeros(ngroups, dtype=np.int8)\n    group_n_seen = np.zeros(ngroups, dtype=np.int8)", "kill": [], "silent": ["C09"], "note": "windows >= 128 are outside the bounded claim of C09; documented blind spot"},
     {"name": "B2 chunked-key merge without accumulated counts", "file": CORE, "old": "                    counts=count[pointer],\n", "new": "                    counts=None,\n", "kill": ["C03"], "silent": []},
